@@ -1,3 +1,5 @@
+#[cfg(trusttunnel_verif)]
+use crate::verif::tokio;
 use crate::forwarder::UdpMultiplexer;
 use crate::metrics::OutboundUdpSocketCounter;
 use crate::{core, datagram_pipe, downstream, forwarder, log_id, log_utils, net_utils};
